@@ -39,14 +39,16 @@ def parseLine (s : String) : Option Line :=
   | "T" => (parseToks rest).map (fun t => .text (located t))
   | _ => none
 
-def parseFile (s : String) : Option (String × List Line) :=
+/-- a file entry `name|lines` or `name>real|lines`: (include name, (real name the handler reports, lines)) -/
+def parseFile (s : String) : Option (String × String × List Line) :=
   match s.splitOn "|" with
   | [] => none
   | head :: ls =>
-    let name := match head.trimAscii.toString.splitOn ">" with
-      | n :: _ => n
-      | [] => ""
-    (sequenceOpt (ls.map parseLine)).map (fun l => (name, l))
+    let (name, real) := match head.trimAscii.toString.splitOn ">" with
+      | [n] => (n, n)
+      | n :: r :: _ => (n, r)
+      | [] => ("", "")
+    (sequenceOpt (ls.map parseLine)).map (fun l => (name, real, l))
 
 /-- an API entry is `NAME value-tokens`, or `name-tokens := value-tokens` when the name is not one identifier -/
 def parseApi (s : String) : Option (List ApiDefine) :=
@@ -66,8 +68,13 @@ def parseApi (s : String) : Option (List ApiDefine) :=
         | some n, some v => some ⟨[n], v⟩
         | _, _ => none)
 
-def handlerOf (files : List (String × List Line)) : Handler :=
+def handlerOf (files : List (String × String × List Line)) : Handler :=
   fun n => (files.find? (·.1 == n)).map (·.2)
+
+/-- one content per real name (the assumption under which `FileLoader`'s content cache is not observable) -/
+def consistent : List (String × String × List Line) → Bool
+  | [] => true
+  | (_, real, lines) :: r => r.all (fun f => f.2.1 != real || f.2.2 == lines) && consistent r
 
 def showTok : Tok → String
   | .id s | .int s | .punct s => s
@@ -96,10 +103,11 @@ def showErr : Err → String
   | .unsupported w => "unsupported " ++ w
   | .includeFuel => "err IncludeDepthExceeded"
 
-def run (api : List ApiDefine) (files : List (String × List Line)) : String :=
+def run (api : List ApiDefine) (files : List (String × String × List Line)) : String :=
   match files with
   | [] => "bad-request"
   | (entry, _) :: _ =>
+    if !consistent files then "unsupported two contents for one real file name" else
     match preprocess (handlerOf files) RsslVerif.Gen.MacroTables.maxIncludeDepth api entry with
     | .error e => showErr e
     | .ok ts =>
@@ -194,15 +202,16 @@ def tincludeFile (h : Handler) : Nat → String → TState → Except Err TState
   | fuel + 1, name, ts =>
     match h name with
     | none => .error (.failedToFindFile name)
-    | some lines =>
-      if ts.st.once.contains name then trunFile (tincludeFile h fuel) name ts []
-      else trunFile (tincludeFile h fuel) name ts lines
+    | some (real, lines) =>
+      if ts.st.once.contains real then trunFile (tincludeFile h fuel) real ts []
+      else trunFile (tincludeFile h fuel) real ts lines
 
 /-- `tame`: every block is in the class and the model's run succeeds; `not-tame` otherwise -/
-def classify (api : List ApiDefine) (files : List (String × List Line)) : String :=
+def classify (api : List ApiDefine) (files : List (String × String × List Line)) : String :=
   match files with
   | [] => "bad-request"
-  | (entry, lines) :: _ =>
+  | (_, entry, lines) :: _ =>
+    if !consistent files then "not-tame" else
     match initialMacros [] api with
     | .error _ => "not-tame"
     | .ok ms =>
